@@ -37,6 +37,10 @@ var lqSinkAddr = func() sdk.AccAddress {
 	return sdk.AccAddress(b)
 }()
 
+// lqStrict (-arg strict=1): also demand what is only tagged as a candidate finding otherwise
+// (targets whose own vesting is still running, see check / record).
+var lqStrict bool
+
 type lqObl struct {
 	Kind  string // own | share | liquidated
 	Sign  int
@@ -104,6 +108,14 @@ func (o *lqTimeOracle) record(i int, op lqOp, pre, post *lqSnap, now int64) {
 		if o.ownVestingRunning(op.A, now) {
 			o.exempt[op.A] = true
 			o.tags["target:clawed-back-while-vesting"] = true
+			kept := o.obl[op.A][:0:0] // the own grant demands nothing any more (strict mode: only the shares do)
+			for _, ob := range o.obl[op.A] {
+				if ob.Kind != "own" {
+					kept = append(kept, ob)
+				}
+			}
+			o.obl[op.A] = kept
+			o.ownVest[op.A] = nil
 		}
 	}
 }
@@ -209,6 +221,27 @@ func (o *lqTimeOracle) check(e *Env, i int, op lqOp) string {
 		if del.Sign() > 0 {
 			o.tags["timecheck:target-delegated"] = true
 		}
+		// where the block time stands: after the end of the account's own schedule / of one token's
+		// share while another share is still running
+		var minEnd, maxEnd int64
+		for k, ob := range o.obl[a] {
+			if ob.Sign < 0 {
+				continue
+			}
+			end := ob.Start + lqTotalLen(ob.Ps)
+			if k == 0 || end < minEnd {
+				minEnd = end
+			}
+			if end > maxEnd {
+				maxEnd = end
+			}
+			if ob.Kind == "own" && end <= now && shares.Sign() > 0 {
+				o.tags["timecheck:after-own-end-share-running"] = true
+			}
+		}
+		if minEnd <= now && now < maxEnd && shares.Sign() > 0 {
+			o.tags["timecheck:between-two-ends"] = true
+		}
 		if sp.Sign() < 0 || sp.Cmp(bal) > 0 {
 			return fmt.Sprintf("account %d: spendable balance %s outside [0, balance %s]", a, sp, bal)
 		}
@@ -235,7 +268,7 @@ func (o *lqTimeOracle) check(e *Env, i int, op lqOp) string {
 			sent = fmt.Sprintf("bank MsgSend of %s aISLM (spendable balance + 1) executed on a fork of the state", more)
 		}
 		retained := new(big.Int).Add(new(big.Int).Sub(bal, eff), del)
-		if o.exempt[a] {
+		if o.exempt[a] && !lqStrict {
 			if retained.Cmp(need) < 0 {
 				o.tags["candidate:clawback-while-vesting-unlocks-redeemed-share"] = true
 			}
@@ -264,6 +297,11 @@ func (o *lqTimeOracle) check(e *Env, i int, op lqOp) string {
 			o.tags["timecheck:own-vesting-running"] = true
 			if strong := o.strongNeed(a, now); strong != nil && retained.Cmp(strong) < 0 {
 				o.tags["candidate:redeem-frees-unvested-own-coins"] = true
+				if lqStrict {
+					return fmt.Sprintf("(strict reading, -arg strict=1) %s aISLM that the bank held back before the redeem became spendable: at block time %d account %d holds %s aISLM "+
+						"(+ %s delegated); its own grant (original - min(unlocked, vested)) plus the unreleased redeemed shares (%s) demand %s locked, but %s can be sent away — %s",
+						new(big.Int).Sub(strong, retained), now, a, bal, del, shares, strong, eff, sent)
+				}
 			}
 		}
 	}
